@@ -305,6 +305,11 @@ fn compute_topic_filter_properties(topic: &str) -> TopicFilterProperties {
     properties
 }
 
+// Connection-independent topic filter check (length, wildcard placement)
+pub(crate) fn is_valid_topic_filter(filter: &str) -> bool {
+    compute_topic_filter_properties(filter).is_valid
+}
+
 pub(crate) fn is_valid_topic_filter_internal(filter: &str, context: &OutboundValidationContext, no_local: Option<bool>) -> bool {
     let topic_filter_properties = compute_topic_filter_properties(filter);
 
